@@ -74,3 +74,38 @@ Proof.
   unfold write_row, lenZ. rewrite C, Z.eqb_refl. cbn [negb]. auto.
 Qed.
 Print Assumptions C09_frame.
+
+(* ---- whole connections ---- *)
+Require Import Wire.Case Spec.Oracles Spec.OracleFactsRows.
+From Coq Require Import String.
+Local Open Scope string_scope.
+Local Open Scope list_scope.
+
+(* For every configuration (any parser table, any handler programs, authentication, middleware, limit) and every
+   client byte stream (simple and extended protocol, any Bind result formats, SSLRequest first or not, malformed
+   or hostile input included): every DataRow in the log of the whole connection is a row that a configured
+   statement function writes — as many values and as many fields as that statement declares columns — and each
+   field is NULL exactly for the three NULL values and otherwise decodes, with the independent decoder and in the
+   format that was used for that column (which is text or binary), to the value written, for every value matching
+   its column type. No DataRow comes from anywhere else. *)
+Theorem C09_connection_rows : forall sc, Forall (row_from sc) (Oracles.outs (run_case sc)).
+Proof. exact rows_come_from_handlers. Qed.
+Print Assumptions C09_connection_rows.
+
+Definition ex_rows_case : scase :=
+  {| sc_limit := 0; sc_auth := None; sc_params := []; sc_version := []; sc_tls := false; sc_mws := [];
+     sc_term := None;
+     sc_parse := [(bs "q", POk [ {| s_id := 1;
+                    s_cols := [ {| c_name := bs "n"; c_table := 0; c_attrno := 0; c_oid := 23; c_width := 4 |};
+                                {| c_name := bs "t"; c_table := 0; c_attrno := 0; c_oid := 25; c_width := -1 |} ];
+                    s_poids := []; s_prog := [HRow [VInt4 7; VText (bs "seven")]; HRow [VNil; VNilPtr]; HComplete (bs "SELECT 2")];
+                    s_stop := true; s_ret := RetNil |} ])];
+     sc_raw := ((let body := be32 196608 ++ cstr (bs "user") ++ cstr (bs "a") ++ [x00] in be32 (4 + lenZ body) ++ body) ++
+               client_msg x51 (cstr (bs "q")) ++
+               client_msg x50 ([x00] ++ cstr (bs "q") ++ [x00; x00]) ++
+               client_msg x42 ([x00; x00] ++ [x00; x00] ++ [x00; x00] ++ [x00; x02; x00; x01; x00; x00]) ++
+               client_msg x45 ([x00] ++ be32 0) ++ client_msg x53 [])%list;
+     sc_tlsin := None |}.
+Example C09_ex_rows :
+  List.length (filter (fun m => match m with BDataRow _ => true | _ => false end) (Oracles.outs (run_case ex_rows_case))) = 4%nat.
+Proof. vm_compute. reflexivity. Qed.
